@@ -101,6 +101,20 @@ class Fn(object):
     self.frozen = set()   # outer variables whose kinds must not change any more (clean mode)
     self.frozen_own = set()   # own variables whose kind set is final (rebound by a nested function, clean mode)
     self.locals_fns = []  # nested Fn objects defined so far
+    self.calls = []       # sibling local functions this one calls
+
+
+def effective_writes(g, seen=None):
+  """Kinds a call of g may leave in each variable it (or a local function it calls) rebinds through nonlocal."""
+  seen = seen if seen is not None else set()
+  if id(g) in seen:
+    return {}
+  seen.add(id(g))
+  out = dict(g.writes)
+  for c in g.calls:
+    for v, ks in effective_writes(c, seen).items():
+      out[v] = out.get(v, frozenset()) | ks
+  return out
 
 
 class State(object):
@@ -490,7 +504,7 @@ class Gen(object):
         if outer is None or extra in outer:
           lim.add(extra)
       for g in fn.locals_fns:
-        for t in g.writes.get(v, ()):
+        for t in effective_writes(g).get(v, ()):
           if outer is None or t in outer:
             lim.add(t)
       limits[v] = frozenset(lim)
@@ -635,6 +649,18 @@ class Gen(object):
         self.features.add('closure_read')
       else:
         self.stmt(g, gst, ind + 1, 1)
+    if self.mode != 'clean' and fn.locals_fns and rng.random() < 0.4:
+      # calls a local function defined earlier: its nonlocal rebindings happen inside this call as well
+      prev = rng.choice(fn.locals_fns)
+      self.emit(ind + 1, 'u2 = %s(1)' % prev.name)
+      gst.defined.add('u2')
+      gst.kinds['u2'] = TOP
+      gst.level['u2'] = 'A'
+      g.calls.append(prev)
+      for v, ks in effective_writes(prev).items():
+        if v in gst.kinds and 'TOP' not in gst.kinds[v]:
+          gst.kinds[v] = gst.kinds[v] | ks
+      self.features.add('local_function_calls_local_function')
     if nl and self.mode != 'clean':
       for v in nl:
         if rng.random() < 0.8:
@@ -671,7 +697,8 @@ class Gen(object):
       return self.s_assign(fn, st, ind)
     g = rng.choice(fn.locals_fns)
     arg, _, _ = self.expr(fn, st, {int}, 1)
-    for v, ks in g.writes.items():
+    eff = effective_writes(g)
+    for v, ks in eff.items():
       lim = self.limits[-1].get(v) if self.limits else None
       if lim is not None and not ks <= lim:
         return self.s_assign(fn, st, ind)
@@ -679,14 +706,14 @@ class Gen(object):
     tgt = None
     if rng.random() < 0.7:
       cand = rng.choice(self.targets(fn))
-      if self.may_assign(fn, st, cand, g.ret, 'A') and cand not in g.writes:
+      if self.may_assign(fn, st, cand, g.ret, 'A') and cand not in eff:
         tgt = cand
     if tgt is None:
       self.emit(ind, '%s(%s)' % (g.name, arg))
     else:
       self.emit(ind, '%s = %s(%s)' % (tgt, g.name, arg))
       self.bind(fn, st, tgt, g.ret, 'A')
-    for v, ks in g.writes.items():
+    for v, ks in eff.items():
       if v in st.kinds:
         st.kinds[v] = st.kinds[v] | ks
         self.note_assigned(v, ks)
